@@ -25,6 +25,14 @@ def anchor_files(prop: str):
     return []
 
 
+def run_rules(mod, ctx, prop):
+    """the property's own rules, then the rules common to all properties (state shared between calls) on its anchor files"""
+    out = mod.run(ctx)
+    from rules.common import check_shared_state
+    check_shared_state(ctx, anchor_files(prop))
+    return out
+
+
 def run_property(prop: str, root: str, tier: str, evidence_dir, seed: int, overlay=None, quiet=False) -> int:
     t0 = time.time()
     try:
@@ -35,10 +43,7 @@ def run_property(prop: str, root: str, tier: str, evidence_dir, seed: int, overl
     try:
         index = Index(root, overlay)
         ctx = Ctx(prop, index, tier)
-        explanation, assumptions = mod.run(ctx)
-        # rules common to all properties (state shared between calls), on the property's anchor files
-        from rules.common import check_shared_state
-        check_shared_state(ctx, anchor_files(prop))
+        explanation, assumptions = run_rules(mod, ctx, prop)
         if tier == "thorough" and hasattr(mod, "thorough"):
             mod.thorough(ctx)
         return finish(ctx, t0, evidence_dir, seed, explanation, assumptions, quiet=quiet)
